@@ -4,7 +4,7 @@ from __future__ import annotations
 import ast
 
 from ..absval import Undecided
-from ..core import (AnalysisError, call_name, const, dotted, is_const, kwarg, local_defs, norm, origin,
+from ..core import (alpha, AnalysisError, call_name, const, dotted, is_const, kwarg, local_defs, norm, origin,
                     parent_map, walk_local)
 from ..facts import default_of, guards_of, returns_of, enclosing_loops
 from ..rules import canon as C
@@ -216,6 +216,18 @@ def siblings(rep):
         ("self.include_rule", True) in [(norm(t), s_) for t, s_ in guards_of(pm, calls["hypergraph_to_bipartite"], bk.node)] and \
         ("self.include_rule", False) in [(norm(t), s_) for t, s_ in guards_of(pm, calls["hypergraph_to_species_graph"], bk.node)]
     rep.ob("O18.4", "R13", bk, ok, sorted(calls), "include_rule selects the bipartite view, otherwise the species view")
+    # the view an analysis works on is built by the writers for THIS configuration: no other source (e.g. a view shared through a cache on the hypergraph)
+    cls_b = rep.repo.cls(BK, "_CRNGraphBackend")
+    stores = []
+    for m_ in [x for x in cls_b.body if isinstance(x, ast.FunctionDef)]:
+        for n_ in ast.walk(m_):
+            if isinstance(n_, ast.Assign) and any(norm(t_) == "self._G" for t_ in n_.targets):
+                stores.append((m_.name, n_))
+    bad_st = [(mn, n_) for mn, n_ in stores if not (is_const(n_.value, None) or (isinstance(n_.value, ast.Call) and call_name(n_.value) in ("hypergraph_to_bipartite", "hypergraph_to_species_graph")
+                                                                                  and n_.value.args and norm(n_.value.args[0]) == "self.hg"))]
+    rep.ob("O18.4", "R13", bk, bool(stores) and not bad_st, alpha(bad_st[0][1], bk.node) if bad_st else f"{len(stores)} store(s) to self._G",
+           "the analysed view is always the one the writers build from this network with this configuration (a view taken from anywhere else - a cache keyed by "
+           "less than the full configuration - belongs to another configuration)", node=bad_st[0][1] if bad_st else bk.node)
     if "hypergraph_to_bipartite" in calls:
         c = calls["hypergraph_to_bipartite"]
         ok = norm(kwarg(c, "include_stoich") or ast.Constant(None)) == "self.include_stoich" and norm(c.args[0]) == "self.hg"
